@@ -480,3 +480,49 @@ def cfg_parent_test(fn, ret):
     while n is not None and not isinstance(n, ast.If):
         n = getattr(n, '_parent', None)
     return n.test if n is not None else ret
+
+
+@obligation('C11-g', 'T7', 'the positional bounds follow parameter_names, not the order in which '
+            'the user wrote the dict', floor=2,
+            necessary='bounds in dict order apply one parameter\'s box to another parameter')
+def c11_g(ctx):
+    gp = ctx.cls('elfi.methods.bo.gpy_regression:GPyRegression')
+    init = ctx.own_method(gp, '__init__')
+    ex = ctx.ex(init)
+    st = [s for (s, t, k) in ctx.stores(init, 'self.bounds') if isinstance(s, ast.Assign)]
+    if not st or not isinstance(st[0].value, ast.Name):
+        ctx.undecided('self.bounds is not assigned from a local')
+    node = ctx.node(init, st[0])
+    defs = ex.reaching(st[0].value.id, node)
+    n_named = 0
+    for d in defs:
+        if d.kind != 'assign':
+            continue
+        v = ex.raw(d.payload)
+        if v[0] != 'comp':
+            continue
+        it = v[3][0][0]
+        by_names = it == ('name', 'parameter_names') or it == ('param', 'parameter_names')
+        by_dict = match(it, pattern('bounds.keys()')) is not None or it in (('name', 'bounds'),
+                                                                          ('param', 'bounds'))
+        if by_names:
+            n_named += 1
+            ctx.ok(init, 'bounds listed in parameter_names order', src(d.payload), fn=init,
+                   node=d.node.ast)
+        elif by_dict:
+            single = any(pol and match(t, pattern('len(bounds) == 1')) is not None
+                         for (t, pol, _) in ctx.guards(init, d.node.ast))
+            ctx.check(single, init, 'dict order used only for a single parameter',
+                      'bounds.keys() only when len(bounds) == 1',
+                      'the bounds list follows the insertion order of the user\'s dict for more '
+                      'than one parameter', fn=init, node=d.node.ast)
+        else:
+            ctx.bad(init, 'bounds order', 'bounds are listed by iterating {}'.format(show(it)),
+                    fn=init, node=d.node.ast)
+    ctx.check(n_named >= 1, init, 'bounds follow parameter_names',
+              '[bounds[n] for n in parameter_names]',
+              'no branch lists the bounds in parameter_names order', fn=init, node=st[0])
+    pn = [s for (s, t, k) in ctx.stores(init, 'self.parameter_names') if isinstance(s, ast.Assign)]
+    ok = bool(pn) and ex.term(pn[0].value) == ('param', 'parameter_names')
+    ctx.check(ok, init, 'same name list stored', 'self.parameter_names = parameter_names', '',
+              fn=init, node=pn[0] if pn else init.node)
